@@ -23,6 +23,7 @@ def handlers : List (String × (String → List String → Option String)) := [
   ("voucher.", Drv.Voucher.handle),
   ("to0.", Drv.TO0.handle),
   ("chunk.", Drv.Chunk.handle),
+  ("rv.", Drv.Rv.handle),
 ]
 
 def dispatch (line : String) : String :=
@@ -33,11 +34,6 @@ def dispatch (line : String) : String :=
     match handlers.find? (fun h => cmd.startsWith h.1) with
     | some (_, f) => (f cmd args).getD "bad-op"
     | none => "bad-op"
-    let r :=
-      if cmd.startsWith "cbor." then Drv.Cbor.handle cmd args
-      else if cmd.startsWith "rv." then Drv.Rv.handle cmd args
-      else none
-    r.getD "bad-op"
 
 partial def loop (hin : IO.FS.Stream) (hout : IO.FS.Stream) : IO Unit := do
   let line ← hin.getLine
